@@ -1,5 +1,5 @@
 (* C06: case checker — normal-form violations of what the real chain produced. *)
-From Cog Require Export Model.Spec15 Model.NF.
+From Cog Require Export Model.Spec15 Model.NF Model.SpecChain.
 Local Open Scope list_scope.
 
 Definition nfcase := (string * pcase)%type.   (* language, (input, passes really applied, outcome, input after) *)
@@ -9,6 +9,9 @@ Definition case_nf_violations (c : nfcase) : list string :=
   match outcome with Ok out => nf_violations lang out | _ => [] end.
 Definition case_nf_bad (c : nfcase) : bool := match case_nf_violations c with [] => false | _ => true end.
 Definition case_chain_mismatch (c : nfcase) : bool := case_mismatch (snd c).
+(* the functional model cannot follow Go pointer sharing between types that a pass copies shallowly and a later
+   pass mutates in place; Model/SpecChain.v decides (over-approximately) where that can matter *)
+Definition case_chain_alias (c : nfcase) : bool := case_alias (snd c).
 Definition case_chain_unmodelled (c : nfcase) : bool := case_unmodelled (snd c).
 Definition case_chain_failed (c : nfcase) : bool :=
   let '(_, (_, _, outcome, _)) := c in match outcome with Ok _ => false | _ => true end.
